@@ -38,12 +38,15 @@ pub enum Seg {
 }
 
 #[derive(Clone, Debug, Serialize, Deserialize, PartialEq, Eq, Hash)]
-pub struct Target { pub prefix: u8, pub segs: Vec<Seg>, pub trailing_slash: bool, pub suffix: u8, pub range: Option<String>, pub legacy: bool }
+pub struct Target { pub prefix: u8, pub segs: Vec<Seg>, pub trailing_slash: bool, pub suffix: u8, pub range: Option<String>, pub legacy: bool,
+    /// bit i set: the i-th separator between segments is spelt as an encoded separator (ENC_SEPS[enc_kind]) instead of '/'
+    #[serde(default)] pub enc_sep: u16, #[serde(default)] pub enc_kind: u8 }
+pub const ENC_SEPS: [&str; 6] = ["%2F", "%2f", "%5C", "\\", "%2F", "%252F"];
 
 #[derive(Clone, Debug, Serialize, Deserialize)]
 pub struct Case { pub tree: TreeSpec, pub target: Target }
 
-pub const UPS: [&str; 10] = ["..", "..", "..", "..", "%2e%2e", "%2E%2E", ".%2e", "%2e.", "..%2f", "..;"];
+pub const UPS: [&str; 14] = ["..", "..", "..", "..", "%2e%2e", "%2E%2E", ".%2e", "%2e.", "..%2f", "..;", "..%2F", ".%2E", "%2E.", "..%5C"];
 pub const PREFIXES: [&str; 16] = ["", "", "", "", "", "", "", "", "", "", "/", "//", "@h", "h:80", "http://h", "http://h:80"];
 pub const SUFFIXES: [&str; 6] = ["", "", "", "?q=1", "#f", "?a=b#c"];
 
@@ -57,7 +60,7 @@ fn range_strategy() -> impl Strategy<Value = Option<String>> {
     ]
 }
 
-fn up_strategy() -> impl Strategy<Value = Seg> { prop_oneof![8 => Just(Seg::Up(0)), 2 => (0u8..10).prop_map(Seg::Up)] }
+fn up_strategy() -> impl Strategy<Value = Seg> { prop_oneof![8 => Just(Seg::Up(0)), 2 => (0u8..14).prop_map(Seg::Up)] }
 
 fn noise() -> impl Strategy<Value = Vec<Seg>> {
     proptest::collection::vec(prop_oneof![Just(Seg::Dot), Just(Seg::Empty)], 0..2)
@@ -94,8 +97,9 @@ fn target_strategy(levels: usize, has_outside_links: bool) -> impl Strategy<Valu
     ];
     let random = proptest::collection::vec(seg, 1..=10);
     let segs = if has_outside_links { prop_oneof![5 => climb, 2 => through_link, 3 => random].boxed() } else { prop_oneof![6 => climb, 4 => random].boxed() };
-    (0u8..16, segs, proptest::bool::weighted(0.2), 0u8..6, range_strategy(), proptest::bool::weighted(0.3))
-        .prop_map(|(prefix, segs, trailing_slash, suffix, range, legacy)| Target { prefix, segs, trailing_slash, suffix, range, legacy })
+    let enc = prop_oneof![7 => Just(0u16), 2 => any::<u16>(), 1 => Just(u16::MAX)];
+    (0u8..16, segs, proptest::bool::weighted(0.2), 0u8..6, range_strategy(), proptest::bool::weighted(0.3), enc, 0u8..6)
+        .prop_map(|(prefix, segs, trailing_slash, suffix, range, legacy, enc_sep, enc_kind)| Target { prefix, segs, trailing_slash, suffix, range, legacy, enc_sep, enc_kind })
 }
 
 /// Render the target text against a materialised tree.
@@ -175,7 +179,10 @@ pub fn render(tree: &Tree, t: &Target) -> String {
     let mut s = String::new();
     s.push_str(PREFIXES[t.prefix as usize % PREFIXES.len()]);
     s.push('/');
-    s.push_str(&parts.join("/"));
+    for (i, part) in parts.iter().enumerate() {
+        if i > 0 { if i <= 16 && (t.enc_sep >> (i - 1)) & 1 == 1 { s.push_str(ENC_SEPS[t.enc_kind as usize % ENC_SEPS.len()]); } else { s.push('/'); } }
+        s.push_str(part);
+    }
     if t.trailing_slash && !s.ends_with('/') { s.push('/'); }
     s.push_str(SUFFIXES[t.suffix as usize % SUFFIXES.len()]);
     // a target never contains whitespace (it would end the target in the request line)
@@ -185,7 +192,7 @@ pub fn render(tree: &Tree, t: &Target) -> String {
 /// running depth of an origin-form path, percent-decoding dots and slashes; true if it ever goes below zero
 pub fn climbs_above(target: &str) -> bool {
     let path = target.split(|c| c == '?' || c == '#').next().unwrap_or("");
-    let dec = path.replace("%2e", ".").replace("%2E", ".").replace("%2f", "/").replace("%2F", "/");
+    let dec = path.replace("%2e", ".").replace("%2E", ".").replace("%2f", "/").replace("%2F", "/").replace("%5c", "/").replace("%5C", "/").replace('\\', "/");
     let mut depth: i64 = 0;
     for seg in dec.split('/') {
         match seg { "" | "." => {} ".." => { depth -= 1; if depth < 0 { return true; } } _ => depth += 1 }
